@@ -403,6 +403,15 @@ impl<'a> Local<'a> {
         }
     }
 
+    /// Like `outcome`, for `n` cases of the class at once.
+    pub fn outcome_n<F: FnOnce() -> Value>(&mut self, class: &str, n: u64, sample: F) {
+        if let Some(e) = self.outcomes.get_mut(class) {
+            e.0 += n;
+        } else {
+            self.outcomes.insert(class.to_string(), (n, Some(sample())));
+        }
+    }
+
     pub fn violation(&mut self, key: &str, case: Value) {
         self.ctx.violation(key, case);
     }
